@@ -20,7 +20,7 @@ pub fn run(args: &[String]) {
                 let mut hb = [0u8; 4096];
                 hb.copy_from_slice(&bytes[..4096]);
                 let h = memvid_core::io::header::HeaderCodec::decode(&hb).unwrap();
-                println!("== after {op}: file_len={} footer_offset={} wal_size={} wal_seq={} viol={}", bytes.len(), h.footer_offset, h.wal_size, h.wal_sequence, d.viol.len());
+                println!("== after {op}: file_len={} footer_offset={} wal_size={} wal_seq={} viol={} geometry={:?}", bytes.len(), h.footer_offset, h.wal_size, h.wal_sequence, d.viol.len(), crate::hist::wal_geometry(&d.path));
                 if let Some(m) = d.mem.as_ref() {
                     for id in 0..m.frame_count() as u64 {
                         let f = m.frame_by_id(id).unwrap();
@@ -60,6 +60,30 @@ pub fn run(args: &[String]) {
             println!("{:?}", m.search(req.clone()).map(|r| r.hits.iter().map(|h| h.frame_id).collect::<Vec<_>>()));
             m.commit().unwrap();
             println!("{:?}", m.search(req).map(|r| r.hits.iter().map(|h| h.frame_id).collect::<Vec<_>>()));
+        }
+        Some("vectime") => {
+            let scratch = crate::common::Scratch::new("exp");
+            let dir = scratch.dir();
+            let path = dir.join("m.mv2");
+            let t = std::time::Instant::now();
+            let mut m = memvid_core::Memvid::create(&path).unwrap();
+            println!("create {:?}", t.elapsed());
+            for i in 0..2 {
+                let o = memvid_core::PutOptions::builder().uri(format!("mv2://v{i}")).timestamp(10).instant_index(false).build();
+                let with_emb = args.get(1).map(|s| s.as_str()) != Some("noemb");
+                if with_emb { m.put_with_embedding_and_options(b"vector doc", vec![1.0, i as f32], o).unwrap(); } else { m.put_bytes_with_options(b"vector doc", o).unwrap(); }
+                println!("put {:?}", t.elapsed());
+            }
+            m.commit().unwrap();
+            println!("commit {:?}", t.elapsed());
+            let _ = m.search_vec(&[0.0, 0.0], 2);
+            println!("search {:?}", t.elapsed());
+            drop(m);
+            println!("drop {:?}", t.elapsed());
+            let m = memvid_core::Memvid::open(&path).unwrap();
+            println!("open {:?}", t.elapsed());
+            drop(m);
+            println!("drop {:?}", t.elapsed());
         }
         _ => println!("unknown experiment"),
     }
